@@ -80,6 +80,10 @@ CHECKS = {
         'property-based testing / fuzzing with a monitor oracle: generated Python expression strings evaluated through safeeval and through real parses under sys.addaudithook with frame attribution; static dunder/impure-call predicate; positive differential against plain eval; two-step histories',
         'Every builtin name called with plausible arguments, dunder/non-dunder attribute chains, lambdas, comprehensions, walrus, dunder-spelling tricks, nested f-string fields and format specs, names shadowed by AST keys, and a safe sub-grammar; ~24k expressions per quick run through the helper and through constants/alerts in real grammars: no file/import/exec/compile/input/os event is attributed to the expression, exit/quit never run, dunder or impure calls are rejected, safe values equal plain eval, rejected text stays text or a TatSu error, names of an earlier parse do not leak. Exploration.',
         'pure builtins are my explicit list; C-level escapes that raise no audit event would be missed; exit/quit are observed through same-named recorders installed before TatSu builds its builtin table', 'DESIGN.md §3 C17'),
+    'C18': (
+        'model-based testing with a harness-owned schedule: deterministic executor + replaced waiter event drive the real submission/refill loop; exhaustive depth-first enumeration of all schedules for small payload lists, Hypothesis-drawn schedules beyond, sampled real process pools',
+        'All payload lists up to length 4 (and a third of length 5) over {ok, captured exception, exception captured through a base class} x 1-2 workers x EVERY completion schedule (which pending future finishes next, one or two at a time), random lists up to 7 payloads x 1-4 workers x random schedules x pickable, and ~100 runs of the public parproc with real process pools and generated sleeps: the multiset of (payload, outcome, exception type, args) equals my plain-loop model and the sequential mode. Exploration with an exhaustive schedule sub-space.',
+        'the owned schedule covers the loop logic, not OS scheduling (sampled only); relies on the private stdlib hook concurrent.futures._base._create_and_install_waiters', 'DESIGN.md §3 C18'),
     'C19': (
         'property-based round-trip testing of pack/unpack; stateful (model-based) testing of the queue with a Hypothesis RuleBasedStateMachine and an owned clock; exhaustive crash-point enumeration (every byte offset of the last record) and byte-flip corruption',
         'Recursive JSON payloads biased to the encoding\'s alphabet (runs, tildes, digits, quotes, escapes, class-marker keys): unpack(pack(p)) == p. Histories of send / partial receive / drain / new reader with 1 writer and up to 3 readers against a list model (prefix at all times, equality after a drain). The last record cut at every byte offset, read, completed, read again; one byte flipped: never delivered early, nothing lost, nothing twice. Exploration with an exhaustive crash-offset sub-space per generated record.',
